@@ -60,6 +60,7 @@ class Gen:
         self.unions: list[str] = []
         self.names_used: set[str] = set()
         self.nonfinite_done = False
+        self.iface_field_names: set[str] = set()
 
     # ---- helpers ----
     def f(self, k):
@@ -136,30 +137,25 @@ class Gen:
         return [t, t, t + nn, f"[{t}]", f"[{t}!]", f"[{t}]{nn}", f"[{t}!]{nn}", f"[[{t}]]"][k]
 
     # ---- literals ----
-    def lit(self, ty: str, depth=0) -> str:
+    def lit(self, ty: str, depth=0, nullable=True) -> str:
         """SDL literal valid for input type `ty` (SDL type string)"""
         if ty.endswith("!"):
-            return self.lit(ty[:-1], depth)
-        if self.chance(0.12):
+            return self.lit(ty[:-1], depth, nullable=False)
+        if nullable and self.chance(0.12):
             self.f("default:null")
             return "null"
         if ty.startswith("["):
             inner = ty[1:-1]
             if self.chance(0.15) and not inner.startswith("["):
                 self.f("default:list-coerced-scalar")
-                return self.lit(inner.rstrip("!"), depth + 1) if not inner.endswith("!") else self.lit_nn(inner, depth + 1)
+                return self.lit(inner, depth + 1, nullable=False)
             k = self.r.randint(0, 3)
             self.f("default:list")
-            return "[" + ", ".join(self.lit_nn(inner, depth + 1) if inner.endswith("!") else self.lit(inner, depth + 1)
-                                   for _ in range(k)) + "]"
+            return "[" + ", ".join(self.lit(inner, depth + 1) for _ in range(k)) + "]"
         return self.lit_named(ty, depth)
 
     def lit_nn(self, ty, depth):
-        for _ in range(20):
-            v = self.lit(ty, depth)
-            if v != "null":
-                return v
-        return self.lit_named(ty.rstrip("!"), depth)
+        return self.lit(ty, depth, nullable=False)
 
     def lit_named(self, ty, depth):
         r = self.r
@@ -194,7 +190,11 @@ class Gen:
                     parts.append(f"{fd['name']}: {v}")
             return "{" + ", ".join(parts) + "}"
         if ty in self.scalars:
-            return self.lit_any(depth)
+            for _ in range(20):
+                v = self.lit_any(depth)
+                if v != "null":
+                    return v
+            return "1"
         raise AssertionError(f"no literal for {ty}")
 
     def lit_any(self, depth):
@@ -213,7 +213,8 @@ class Gen:
             return r.choice(INTS + BIGINTS)
         if k == 1:
             self.f("default:any-float")
-            return r.choice(FLOATS)
+            # print_schema writes -0.0 of a custom scalar as -0, which parses back as the int 0 (graphql-core)
+            return r.choice([x for x in FLOATS if not (self.printable and x == "-0.0")])
         if k == 2:
             self.f("default:any-string")
             return gql_str(self.string())
@@ -255,9 +256,13 @@ class Gen:
             out.append(s)
         return out
 
-    def field_defs(self, k, targets):
+    def field_defs(self, k, targets, own_interface=False):
         out = []
-        for name in self.r.sample(FIELD_NAMES, k):
+        pool = [n for n in FIELD_NAMES if n not in self.iface_field_names] if own_interface else FIELD_NAMES
+        names = self.r.sample(pool, min(k, len(pool)))
+        if own_interface:
+            self.iface_field_names.update(names)
+        for name in names:
             base = self.r.choice(targets)
             a = self.args()
             s = self.desc("  ") + "  " + name + ("(" + ", ".join(a) + ")" if a else "") + ": " + self.wrap(base)
@@ -321,7 +326,7 @@ class Gen:
             fields = {}
             for p in closure:
                 fields.update(self.ifaces[p]["fields"])
-            own = self.field_defs(r.randint(1, 3), out_targets)
+            own = self.field_defs(r.randint(1, 3), out_targets, own_interface=True)
             for k, v in own:
                 fields.setdefault(k, v)
             self.ifaces[nm] = {"closure": closure, "fields": fields}
